@@ -230,7 +230,7 @@ func genC18(t *Tape, tier string) *Scenario {
 		}
 		cp.Data = append(cp.Data, dp)
 		tx.DataOp = len(cl.Ops)
-		dop := ClientOp{Kind: opData, Body: []byte(fmt.Sprintf("message %d\r\n", m)), UseCb: cb}
+		dop := ClientOp{Kind: opData, Body: []byte(fmt.Sprintf("message %d\r\n", m)), UseCb: cb, CloseTwice: t.Chance(1, 4)}
 		if !tx.Slow && t.Chance(1, 10) {
 			// a slow producer: the rest of the message is written more than CommandTimeout
 			// after the 354 (nothing limits the time a client takes to produce a message)
@@ -391,6 +391,15 @@ func checkC18(sc *Scenario, h *History) []Violation {
 			}
 			if !tx.AllOK && d.Err != "" && !d.IsSMTP && d.End-d.Begin <= int64(time.Minute) {
 				v("C18.refusal-lost", "transaction %d: Close returned a non-SMTP error %q for a refusal", ti, d.Err)
+			}
+		}
+		if d.Close2Set {
+			// a second Close is an error of the caller's, reported as such and kept off the wire
+			if d.Close2Err == "" {
+				v("C18.close-twice", "transaction %d: the second Close returned nil", ti)
+			}
+			if d.RawAfter != d.RawBefore {
+				v("C18.close-twice", "transaction %d: the second Close wrote %d octets to the connection", ti, d.RawAfter-d.RawBefore)
 			}
 		}
 		if tx.NoopOp < len(res) && res[tx.NoopOp].Err != "" {
